@@ -5,6 +5,8 @@ every command of a seeded {step, rewind} walk the state equals the reference
 state after the *net* number of steps, and continuing to the end gives the
 reference's remaining states and outcome.  A refused rewind changes nothing.
 """
+import re
+
 from . import gen as G, proto, ref as refmod, script as S, session, workloads
 from .core import Eval
 
@@ -18,6 +20,7 @@ ASSUMPTIONS = [
     "the reference is the same tree without rewinds: a defect present identically in both runs is invisible (C01 territory)",
     "libsecp256k1 runs unsanitised; GNU readline is replaced by the simulated user",
 ]
+RERUN_PLAIN_AFTER_SANITIZER = True      # see core.evaluate_case
 TIERS = {
     "quick": {"cases": 8000, "flavours": ("asan",), "cap_s": 600},
     "thorough": {"cases": 250000, "flavours": ("asan",), "cap_s": 3 * 3600},
@@ -110,6 +113,9 @@ def gen(rng, tier, idx):
     if rng.chance(15):
         # ... or at an absolute depth around a round number (where a sized buffer or counter would wrap)
         scn["prefix_steps"] = rng.choice([31, 32, 33, 63, 64, 127, 128, 199, 200, 201, 255, 256, 257, 511, 512, 999, 1000, 1001, 1023, 1024, 1025]) + rng.range(-1, 2)
+    if "huge-item" in (scn.get("features") or []) and rng.chance(60):
+        # what makes this session special develops late (an item doubling past 64 KiB): walk around its end
+        scn["prefix_permille"] = rng.range(850, 1000)
     if scn.get("family") == "long-listing" and len(scn.get("script") or "") >= 2 * 990 and rng.chance(60):
         # sessions long enough to get there: start the walk right at a four-digit depth
         scn["prefix_steps"] = rng.choice([998, 999, 1000, 1001, 1002])
@@ -265,6 +271,14 @@ def evaluate(ctx, scn):
                 accepted_rewinds += 1
                 if c.pre:
                     classify_rewind_probe(ev, c.pre, ref, net + 1, tainted)
+            elif rep == "crashed":
+                # the process died while performing the rewind (the rewind-free session of the same input ran normally):
+                # whatever else that is (C15), nothing was restored and the session cannot be continued to its end
+                how = run.classify()
+                if clean and not tainted and ref.run.normal() and how[0] in ("sanitizer", "signal", "abort", "assert", "terminate"):
+                    ev.add(PROP, "rewind-died", how[0], "the session died (%s) while performing a rewind after net %d steps and %d accepted rewinds; "
+                           "the state before the undone step was not restored" % (how[1][:80], net, accepted_rewinds))
+                tainted = True
             else:
                 ev.counters["probe:rewind_refused"] += 1
                 if c.pre and c.pre.get("curr_op_seq", "0") != "0":
@@ -325,6 +339,12 @@ def classify_rewind_probe(ev, pre, ref, k, tainted):
         return
     if k < len(ref.probes) and k >= 1:
         p = ref.probes[k - 1]
+        if p:
+            big = [int(m) for m in re.findall(r"#(\d+):", (p.get("stack") or "") + (p.get("altstack") or ""))]
+            if any(b > 520 for b in big):
+                ev.counters["probe:rewind_restores_item>520B"] += 1
+            if any(b > 65535 for b in big):
+                ev.counters["probe:rewind_restores_item>64KiB"] += 1
         if p and p.get("next") == "op":
             o = int(p.get("next_opcode", -1))
             name = S.NAME.get(o, "")
